@@ -68,14 +68,25 @@ package revision
 //@   assert [C16:establish-only-after-validation] validated
 //@   assert [C16:establishes-what-was-validated] $objs == $all && $parent == parent && $control == control
 
+// Every object that passes validation (the closure returns nil) was either found and its update
+// dry-run, or found absent and - when the revision will control it - its create dry-run: the
+// establish phase performs no kind of write that validation did not rehearse.
 //@ func (*revision.APIEstablisher).validate$1
 //@ props C16
+//@ ghost absent bool = false
+//@ ghost dryCreated bool = false
+//@ ghost dryUpdated bool = false
+//@ site (client.Reader).Get(_, _, _, $cur, $go...)
+//@   update absent = call("k8s.io/apimachinery/pkg/api/errors.IsNotFound", err)
 //@ optional site (*revision.APIEstablisher).create(_, _, _, _, $opts...)
 //@   assert [C16:validation-creates-are-dry-run] len($opts) == 1 && typeis($opts[0], client.dryRunAll)
 //@   assert [C16:validation-creates-only-when-controlling] control
+//@   update dryCreated = err == nil
 //@ optional site (*revision.APIEstablisher).update(_, _, _, _, _, $control, $opts...)
 //@   assert [C16:validation-updates-are-dry-run] len($opts) == 1 && typeis($opts[0], client.dryRunAll)
 //@   assert [C16:validation-update-role] $control == control
+//@   update dryUpdated = err == nil
+//@ ensures [C16:every-validated-object-was-dry-run] err == nil ==> (!absent && dryUpdated) || (absent && (control ==> dryCreated))
 //@ optional site (client.Writer).Create(_, _, _)
 //@   assert [C16:validation-never-writes-directly] false
 //@ optional site (client.Writer).Update(_, _, _)
